@@ -73,6 +73,16 @@ def scalar_classes(rng, n_random=6, allow_big=False):
     return out
 
 
+def limb_specials(rng, n=3):
+    """canonical Fq values with limb structure: low limb(s) zero, single limb set, all-ones limbs"""
+    out = [1 << 64, 1 << 128, 1 << 192, 1 << 320, (1 << 64) * 5 + (1 << 320), ((1 << 64) - 1) << 64, (1 << 64) - 1, (1 << 381) - (1 << 64)]
+    for _ in range(n):
+        out.append((rng.randrange(Q) >> 64) << 64)          # low limb zero
+        out.append((rng.randrange(Q) >> 128) << 128)        # two low limbs zero
+        out.append(rng.randrange(1 << 64))                  # only the low limb
+    return [v % Q for v in out]
+
+
 def point_classes(g, rng, nrand=3, low=True):
     out = [("identity", None), ("generator", g.gen)]
     for _ in range(nrand):
@@ -370,6 +380,16 @@ def check_C12(ck):
         x = O.f12_unflat([rng.randrange(Q) for _ in range(12)])
         els.append(("random", x))
         els.append(("Fq4", O.f12_pow(x, (Q ** 12 - 1) // (Q ** 4 - 1) * 0 + sum(Q ** (4 * i) for i in range(3)))))
+    # structured elements: pure-w multiples (c0 = 0), single non-zero coefficient in each of the 12 slots,
+    # sparse 014-shaped elements (line functions), elements with a zero Fq6 half
+    els.append(("c0=0 (w multiple)", (O.F6_ZERO, ((rng.randrange(Q), rng.randrange(Q)), F2.rand(rng), F2.rand(rng)))))
+    els.append(("w", (O.F6_ZERO, O.F6_ONE)))
+    els.append(("v*w (Fq4)", (O.F6_ZERO, ((0, 0), (rng.randrange(1, Q), rng.randrange(Q)), (0, 0)))))
+    for slot in (range(12) if thorough else rng.sample(range(12), 4)):
+        l = [0] * 12
+        l[slot] = rng.randrange(1, Q)
+        els.append(("single-slot-%d" % slot, O.f12_unflat(l)))
+    els.append(("sparse-014", ((F2.rand(rng), F2.rand(rng), (0, 0)), ((0, 0), F2.rand(rng), (0, 0)))))
     cases = [("fe/" + c, "finalexp %s" % O.show_f12(x)) for (c, x) in els]
     res = ck.run(cases)
     for (c, x), (impl, _), case in zip(els, res, cases):
@@ -378,7 +398,7 @@ def check_C12(ck):
             continue
         want = O.show_f12(O.f12_pow(x, O.FINAL_EXP))
         ck.expect(impl == want, "fe=pow", case[1], impl, want, "f^(3(q^12-1)/r)")
-        if c in ("Fq", "Fq2", "Fq6", "Fq4", "one", "minus-one"):
+        if c in ("Fq", "Fq2", "Fq6", "Fq4", "one", "minus-one", "v*w (Fq4)"):
             ck.expect(impl == O.show_f12(O.F12_ONE), "subfield->1", case[1], impl, "1", "proper subfield elements map to 1")
     # multiplicativity on impl outputs
     xs = [x for (c, x) in els if c == "random"][:2]
@@ -819,6 +839,11 @@ def check_C18(ck):
                 cases.append(("fq/lt-neg", "fq lt %x %x" % (a, (-a) % p))); kinds.append((f, p, a, "ltneg"))
     # Fq2
     v2 = [(0, 0), (1, 0), (0, 1), (Q - 1, 0), (4, 0), (2, 0), (0, 2), (0, Q - 2)]
+    ls = limb_specials(rng, 2)
+    v2 += [(a, b) for a in ls[:6] for b in (1, 2)] + [(0, a) for a in ls[:4]] + [(a, 0) for a in ls[:4]]
+    for a in ls:
+        cases.append(("fq/sgn0-limbs", "fq sgn0 %x" % a)); kinds.append(("fq", Q, a, "sgn"))
+        cases.append(("fq/lt-limbs", "fq lt %x %x" % (a, (-a) % Q))); kinds.append(("fq", Q, a, "ltneg"))
     for _ in range(n):
         s = F2.rand(rng)
         sq = F2.mul(s, s)
@@ -1049,6 +1074,7 @@ def check_C14(ck):
         K, C = g.K, g.C
         Z = K.from_int(O.SSWU_Z1) if tag == "g1" else O.SSWU_Z2
         us = [K.zero, K.one, K.neg(K.one)] + [K.rand(rng) for _ in range(4 if not thorough else 30)]
+        us += [K.from_int(1 << 64)] if tag == "g1" else [((1 << 64) % Q, 1), ((1 << 128) % Q, 3)]
         if tag == "g1":
             # exceptional u: Z^2 u^4 + Z u^2 = 0  <=>  u^2 = -1/Z
             s = O.fsqrt((-O.finv(O.SSWU_Z1)) % Q)
@@ -1134,6 +1160,11 @@ def check_C15(ck):
             us += [s, (-s) % Q]
         else:
             us += [(rng.randrange(Q), 0), (0, rng.randrange(Q)), (1, 1), (0, 1)]
+        ls = limb_specials(rng, 2)
+        if tag == "g1":
+            us += ls
+        else:
+            us += [(a, b) for a in ls[:6] for b in (1, 3, 2, 0)] + [(0, a) for a in ls[:4]] + [(a, b) for a, b in zip(ls, reversed(ls))]
         # fill every (which candidate is square) x (sign of t) class (the multiplier class is recorded from outputs)
         hist = {}
         need = 3 if not thorough else 25
